@@ -671,6 +671,12 @@ def has_block_ref(adef):
     return any(o["kind"] == "ref" and o["override"]["kind"] == "block" for o in all_objects(adef["objects"]))
 
 
+def through_block_ref(adef, path):
+    """the instance is reached through a block ref (one of the enclosing steps of its path is one)"""
+    refs = {loose(o["name"]) for o in all_objects(adef["objects"]) if o["kind"] == "ref" and o["override"]["kind"] == "block"}
+    return any(loose(n) in refs for n, _ in path[:-1])
+
+
 def check_c12(c, af, a, mf):
     if c.get("profile") not in ("collide", "mixed"):
         return None
@@ -860,12 +866,9 @@ def check_c04(c, af, a, mf):
             return {"why": f"block accessor chain {g['path']}: {g['overflow']}", "finding": arith_finding(g["overflow"], known)}
     for g in got:
         if g["kind"] != "block" and not g.get("cast_ok", True):
-            under_rep_block = any(i is not None for _, i in g["path"][:-1])
             fid = None
-            if known:
-                fid = "F6a-minmax-ignores-enclosing-block-repeat" if under_rep_block else None
-                if has_block_ref(c["adef"]) and not under_rep_block:
-                    fid = "F6b-minmax-ignores-block-ref-children"
+            if known and through_block_ref(c["adef"], g["path"]):
+                fid = "F6b-minmax-ignores-block-ref-children"
             return {"why": f"accessor chain {g['path']}: {g['value']} does not fit {g['address_type']}; the cast wraps and the interface gets another address", "finding": fid}
     dead = []
     missing = [k for k in want if k not in seen and not any(k[:len(d)] == d for d in dead)]
@@ -954,11 +957,8 @@ def check_c13(c, af, a, mf):
     if misfit and oc == "ok":
         x, t = misfit
         fid = None
-        if known:
-            under_rep_block = any(i is not None for _, i in x["path"][:-1])
-            fid = "F6a-minmax-ignores-enclosing-block-repeat" if under_rep_block else None
-            if has_block_ref(adef):
-                fid = "F6b-minmax-ignores-block-ref-children" if not under_rep_block else fid
+        if known and through_block_ref(adef, x["path"]):
+            fid = "F6b-minmax-ignores-block-ref-children"
         return {"why": f"{x['kind']} instance {x['path']} has address {x['address']} outside {t} but the definition is accepted", "finding": fid}
     if oc == "error" and af.get("kind", "").startswith("addr_too_"):
         nums = [int(x) for x in (af.get("numbers") or [])]
